@@ -14,7 +14,7 @@ RULE = ("zone ids of the active provider (quick: 64 seeded ids + sentinels such 
         "fields, zone key and the utcoffset the active provider itself assigns to that wall time (fold=0 / is_dst=False); UTC properties are written as "
         "the same instant with Z; non-trivial = wall time within 1 h of a transition, or inside a gap/fold; distinct by case hash")
 ASSUMPTIONS = ["the expected offset is an independent call to the active provider for that wall time with fold=0, never the source tzinfo's offset (S6)",
-               "inputs carry fold=0; iCalendar cannot represent fold=1", "dateutil sources are checked for wall time only (their zone identification is heuristic)"]
+               "zoned inputs carry fold=0 (iCalendar cannot represent fold=1 in a zoned value); UTC properties are also given the fold=1 reading of every wall time inside a repeated hour", "dateutil sources are checked for wall time only (their zone identification is heuristic)"]
 SOFT_S = {"quick": 14, "thorough": 420}
 UTC = timezone.utc
 SENTINELS = ["UTC", "Etc/UTC", "Zulu", "GMT", "Etc/GMT+12", "Etc/GMT-14", "US/Eastern", "America/Argentina/Buenos_Aires", "America/Argentina/ComodRivadavia", "Australia/Lord_Howe",
@@ -272,11 +272,24 @@ def check_case(ctx, case):
 
 
 def check_utc_props(ctx, prov, dt, w):
+    """UTC properties keep the *instant*: inside a repeated hour the second reading (fold=1) of a wall time is another instant than the first, and
+    it is written right after the first one so that a conversion remembered per wall time (datetime equality and hash ignore fold) is seen"""
+    if _check_utc_props(ctx, prov, dt) and dt.tzinfo is not None and not hasattr(dt.tzinfo, "localize"):
+        try:
+            late = dt.replace(fold=1)
+            differs = late.utcoffset() != dt.utcoffset()
+        except Exception:
+            return
+        if differs and _check_utc_props(ctx, prov, late):
+            ctx.count("utc-property-second-reading-checks")
+
+
+def _check_utc_props(ctx, prov, dt):
     from icalendar import Alarm, Event
     try:
         want = dt.astimezone(UTC)
     except Exception:
-        return
+        return False
     want_text = fmt(want) + "Z"
     ev = Event()
     ev.add("dtstamp", dt)
@@ -294,20 +307,21 @@ def check_utc_props(ctx, prov, dt, w):
         for n in names:
             ls = lines_named(data, n)
             if len(ls) != 1 or ls[0][1] != want_text or "TZID" in ls[0][0]:
-                ctx.fail("utc-property-instant", observed=(n, ls), expected=want_text)
-                return
+                ctx.fail("utc-property-instant", observed=(n, ls, "fold=%d" % dt.fold), expected=want_text)
+                return False
         back = type(comp).from_ical(data)
         for n in names:
             g = back[n].dt
             if g.utcoffset() != timedelta(0) or g.replace(tzinfo=None) != want.replace(tzinfo=None):
                 ctx.fail("utc-property-parsed", observed=(n, str(g)), expected=str(want))
-                return
+                return False
     ctx.count("utc-property-checks")
+    return True
 
 
 def inconclusive(m, tier):
     c = m["counters"]
-    out = [f"monitor counter {k} is zero" for k in ("zoned-roundtrips", "utc-property-checks", "gap-or-fold-walltimes", "source:pytz", "source:zoneinfo", "source:dateutil") if not c.get(k)]
+    out = [f"monitor counter {k} is zero" for k in ("zoned-roundtrips", "utc-property-checks", "utc-property-second-reading-checks", "gap-or-fold-walltimes", "source:pytz", "source:zoneinfo", "source:dateutil") if not c.get(k)]
     if tier == "thorough":
         import zoneinfo
         import pytz
